@@ -70,7 +70,55 @@ def compose_down(pos_list, strand, maps, strands, frm, to):
     return pos_list, strand
 
 
+def check_revcomp_level(spec, ctx):
+    """a level made by the public Sequence.reverse_complement() of a sequence that records where it lies on its parent (single- or
+    multi-block, either strand): position j of the reverse complement is position L-1-j of the original on the opposite strand, so
+    a child on it lifts to the chromosome through that reflection and the placement"""
+    _case[0] += 1
+    tag = "rc%d_" % _case[0]
+    G0 = spec["genome"]
+    pl = spec["placements"][0]
+    ppos = rm.positions(pl["blocks"], pl["strand"])          # level-1 position -> chromosome position
+    s1 = rm.seq_image(G0, ppos, pl["strand"])
+    root = Sequence(G0, Alphabet.NT_STRICT, id=tag + "L0", type="chromosome")
+    lvl1 = Sequence(s1, Alphabet.NT_STRICT, id=tag + "L1", type="contig", parent=mkloc(pl, Parent(id=tag + "L0", sequence_type="chromosome", sequence=root)))
+    try:
+        rc = lvl1.reverse_complement()
+    except BioCantorException as e:
+        ctx.fail("revcomp_level:reverse_complement_raises", repr(e)[:100])
+        return
+    ctx.label("level_made_by_reverse_complement")
+    if len(rm.sorted_blocks(pl["blocks"])) >= 2:
+        ctx.label("reverse_complement_of_a_multiblock_placement")
+    L = len(s1)
+    C = spec["child"]
+    cpos = [p_ for p_ in rm.positions(C["blocks"], C["strand"])]
+    if not cpos or max(cpos) >= L:
+        return
+    child = mkloc(C, rc)
+    ctx.eq("revcomp_level:child_sequence", str(child.extract_sequence()), rm.seq_image(rm.revcomp(s1), cpos, C["strand"]))
+    exp_strand = rm.compose(rm.compose(C["strand"], "-"), pl["strand"])
+    exp_pos = [ppos[L - 1 - j] for j in cpos]
+    try:
+        lifted = child.lift_over_to_first_ancestor_of_type("chromosome")
+    except (BioCantorException, ValueError) as e:
+        ctx.fail("revcomp_level:lift_raises", repr(e)[:120])
+        return
+    # (block order of the image follows the usual representation rule; compared as the 5'->3' position list when representable)
+    got = rm.loc_positions(lifted)
+    if sorted(got) == sorted(exp_pos) and got != exp_pos and len(rm.blocks_of_set(set(exp_pos))) > 1 and rm.has_self_overlap(C["blocks"]):
+        pass
+    else:
+        ctx.eq("revcomp_level:chromosome_positions", got, exp_pos)
+    ctx.eq("revcomp_level:chromosome_strand", rm.loc_strand(lifted), exp_strand)
+    # the lifted location names the bases the child reads on its own parent (read off the chromosome by the model: the parent a
+    # reverse complement records carries the placement, not the chromosome's sequence)
+    ctx.eq("revcomp_level:lifted_location_names_the_child_bases", rm.seq_image(G0, got, rm.loc_strand(lifted)) if rm.loc_strand(lifted) in "+-" else None, str(child.extract_sequence()))
+
+
 def check_hierarchy(spec, ctx):
+    if spec.get("revcomp_level"):
+        check_revcomp_level(spec, ctx)
     if spec.get("type_case"):
         ctx.label("built_in_types_in_other_casing")
     if any((spec.get("seq_knows_parent") or [])[1:]):
@@ -450,7 +498,7 @@ def strat_hierarchy(draw, tier="quick"):
              "compound": draw(st.booleans())}
     return {"genome": G, "placements": placements, "child": child, "no_chunk_level": draw(st.integers(0, 2)) == 0,
             "seq_knows_parent": [draw(st.integers(0, 3)) == 0 for _ in range(len(placements) + 1)],
-            "type_case": draw(st.sampled_from([None, None, None, "upper", "title"]))}
+            "type_case": draw(st.sampled_from([None, None, None, "upper", "title"])), "revcomp_level": draw(st.integers(0, 3)) == 0}
 
 
 @st.composite
@@ -478,7 +526,7 @@ PROP = Prop(
     pid="C04",
     legs=[
         Leg("hierarchy", check_hierarchy, strategy=strat_hierarchy, n_quick=700, n_thorough=6000, shards_quick=4,
-            must_hit=["depth>=3", "two_minus_levels", "block_split_across_parent_blocks", "no_ancestor", "lift_by_sequence", "interval_object_on_hierarchy"],
+            must_hit=["depth>=3", "two_minus_levels", "block_split_across_parent_blocks", "no_ancestor", "lift_by_sequence", "interval_object_on_hierarchy", "reverse_complement_of_a_multiblock_placement"],
             rule="hierarchies of depth 1..3 (4 levels incl. root), each level placed on its parent by a 1..3-block location on either strand, sequences extracted from the root; child locations of 1..3 blocks; every ancestor as target by type and by sequence identity; absent ancestors"),
         Leg("overhang", check_overhang, strategy=strat_overhang, n_quick=500, n_thorough=5000, shards_quick=4,
             must_hit=["child_overhangs_window", "child_inside_window", "overhanging_child_not_longer_than_window", "nested_windows"],
